@@ -122,6 +122,24 @@ def layer_D_leaves():
         out.append(("sum", ("vpow", v, k)))
     for f in VUN:
         out.append(("sum", ("vun", f, v)))
+    # (appended later; indices of the leaves above are part of C15's term-kind names)
+    # the SAME operand object on both sides (the builder memoises vector recipes) / an equal but distinct object
+    vv = ("vbin", "*", v, v)
+    out += [("dot", vp1, vp1), ("dot", vv, vv), ("dot", vp1, ("fresh", 1, vp1))]
+    # stepped / reversed views under every reduction kind (positions are not first + offset)
+    u = ("vvar", "u", 5)
+    e2, o2, r5 = ("slice", u, None, None, 2), ("slice", u, 1, None, 3), ("slice", u, None, None, -1)
+    C5 = ("arr", (1.0, -2.0, 0.5, 3.0, -1.5))
+    out += [("sum", e2), ("mm", C3, e2), ("LC", C3, e2), ("norm", e2, 2), ("norm", e2, 1), ("qform", e2, Q3N), ("dot", e2, e2),
+            ("sum", r5), ("mm", C5, r5), ("norm", r5, 2), ("norm", o2, 1), ("mm", C2, o2), ("dot", r5, u),
+            ("sum", ("vpow", e2, 3)), ("sum", ("vun", "exp", r5))]
+    # two DIFFERENT views with the same generated name and size inside one expression
+    s3, s4 = ("slice", u, None, None, 3), ("slice", u, None, None, 4)
+    out += [("bin", "-", ("sum", s3), ("sum", s4)), ("bin", "+", ("mm", C2, s3), ("mm", ("arr", (0.5, 3.0)), s4)),
+            ("dot", ("slice", v, None, None, None), ("slice", v, None, None, -1)),
+            ("bin", "-", ("sum", ("row", M22, 0, 0, 1, None)), ("bin", "*", ("c", 3), ("sum", ("row", M22, 0, 1, 2, None)))),
+            ("bin", "+", ("norm", s3, 2), ("bin", "*", ("c", 2), ("norm", s4, 2))),
+            ("bin", "*", ("sum", ("vpow", s3, 2)), ("sum", ("vpow", s4, 3)))]
     return out
 
 
